@@ -1,6 +1,6 @@
 (* the property-level statements of layer L2 and their proofs from the layer's theorems (the Props*.v files only [exact] these) *)
 From stdpp Require Import list numbers option.
-From L2 Require Import Model Base Own Jobs Shape DwInv Pool OpShape Fut Sig Task TaskInv Wake WakeInv Term Complete Susp Zero ZeroInv ZeroTerm.
+From L2 Require Import Model Base Own Jobs Shape DwInv Pool OpShape Fut Sig Task TaskInv Wake WakeInv Term Complete Susp Zero ZeroInv ZeroTerm Facts.
 
 (* ---------- C01 ---------- *)
 Definition C01_full : Prop :=
@@ -182,4 +182,31 @@ Proof.
   intros T HA scripts npool nev tr s os e Hr Hp. pose proof (reachable_all T HA _ _ _ _ _ Hr) as HI. split.
   - apply (parked_order s os e); [apply (ia_jobs _ HI)|exact Hp].
   - intros a s' Hs Hf. eapply parked_stays; [apply (ac_own _ HA)|apply (ac_jobs _ HA)|apply (ia_own _ HI)|apply (ia_jobs _ HI)|exact Hp|exact Hs|exact Hf].
+Qed.
+
+(* ---------- the order facts (Model.ffacts / stepF) ----------
+   Every statement above is about [run T] = [runF code_ffacts T] (Facts.runF_code).  The conclusions that the four order facts are
+   needed for, with the facts as a parameter; proved for [code_ffacts] here, refuted for each single false fact in Refute.v. *)
+Definition C01_exclusive_F (F : ffacts) : Prop :=
+  forall (T : ftables), own_cond T -> jobs_cond T ->
+  forall scripts npool nev tr s, runF F T (init scripts npool nev) tr = Some s ->
+  (forall a b sa sb, stacks s !! a = Some sa -> stacks s !! b = Some sb -> cntf marker sa >= 1 -> cntf marker sb >= 1 -> a = b) /\
+  (forall l1 l2 o, s.(log) = l1 ++ GStart o :: l2 -> GFinish o ∉ l1 -> forall o', GStart o' ∉ l1).
+Definition C06_terminal_pool_F (F : ffacts) : Prop :=
+  forall (T : ftables), all_cond T ->
+  forall scripts npool nev tr s, npool >= 1 -> runF F T (init scripts npool nev) tr = Some s ->
+  terminalF F T s -> all_fired s ->
+  s.(qs) = Idle /\ s.(jobs) = [] /\ (forall o, GPush o ∈ s.(log) -> GStart o ∈ s.(log) /\ GFinish o ∈ s.(log)) /\
+  (forall c st, stacks s !! c = Some st -> done_actor st).
+Lemma C01_exclusive_code : C01_exclusive_F code_ffacts.
+Proof.
+  intros T HT HC scripts npool nev tr s Hr. rewrite runF_code in Hr.
+  destruct (C01_main T HT HC _ _ _ _ _ Hr) as (_ & H2 & H3 & _). split; [|exact H3].
+  intros a b sa sb Ha Hb Hma Hmb. by destruct (H2 a b sa sb Ha Hb Hma Hmb).
+Qed.
+Lemma C06_terminal_pool_code : C06_terminal_pool_F code_ffacts.
+Proof.
+  intros T HA scripts npool nev tr s Hn Hr Ht Hf. rewrite runF_code in Hr. apply terminalF_code in Ht.
+  destruct (C06_terminal_main T HA _ _ _ _ _ Hn Hr Ht Hf) as (H1 & H2 & _ & _ & H5).
+  split; [done|]. split; [done|]. split; [done|]. by eapply C07_complete_main.
 Qed.
